@@ -63,6 +63,18 @@ func hyphensStream(r *Run) {
 				}
 			}
 		}
+		// consecutive text items are ONE literal text for the tokenizer (the source is their
+		// concatenation): merge them, so that "the text adjacent to the tag" below is that whole text
+		merged := make([]tItem, 0, len(items))
+		for _, it := range items {
+			if k := len(merged); it.Kind == 'x' && k > 0 && merged[k-1].Kind == 'x' {
+				merged[k-1].Text += it.Text
+				r.Count("merged-adjacent-text-items")
+				continue
+			}
+			merged = append(merged, it)
+		}
+		items = merged
 		var pos []int // marker positions: item index*2 (+1 for the right marker)
 		for i, it := range items {
 			if it.Kind != 'x' {
@@ -127,6 +139,12 @@ func hyphensStream(r *Run) {
 					v[i].TrimL = true
 					if i > 0 && items[i-1].Kind == 'x' && !(inRawOrComment(i) && (items[i].Name == "endraw" || items[i].Name == "endcomment")) {
 						ref[i-1].Text = strings.TrimRightFunc(ref[i-1].Text, unicode.IsSpace)
+						if strings.HasSuffix(ref[i-1].Text, "{") {
+							// the hyphen-free reference would spell `{` + `{{` / `{%`: a different token
+							// sequence, not the same template with less whitespace
+							facesText = false
+							r.Count("faces-text-skipped(reference-would-join-brace-and-delimiter)")
+						}
 					} else {
 						facesText = false
 					}
